@@ -154,6 +154,17 @@ def one_program(ctx, script, rng, settings_list):
                 ctx.violation('build-raises', f'building with {kw}, converter={conv_name} raised {type(e).__name__}: {str(e)[:300]}', c2)
                 return
             ctx.count('variants_built', len(variants))
+            # every equation-carrying symbol (identical verbatim statements included) must appear in the definition
+            if conv is None:
+                want_blocks = [s.code for s in symbols if s.type.name in ('ENDOGENOUS', 'VERBATIM') and s.equation is not None and s.code is not None]
+                pos = 0
+                for code in want_blocks:
+                    block = textwrap.indent(code, '        ')
+                    at = texts[True].find(block, pos)
+                    if at < 0:
+                        ctx.violation('equation-missing-from-definition', f'code of an equation-carrying symbol is missing (in order) from the definition: {code!r}', c2)
+                        return
+                    pos = at + len(block)
             # class attributes
             ref_key = ('build_model', True)
             R = variants[ref_key]
@@ -187,7 +198,8 @@ def run_shard(ctx):
     rng = ctx.rng('c15')
     rp = gen.RandomPrograms(rng, max_depth=3, max_eqs=5, max_names=8, big_offsets=True, lhs_offsets=(0, 0, 0, -1))
     all_settings = [{}, {'lags': 0}, {'lags': 2, 'leads': 1}, {'min_lags': 3}, {'min_leads': 2, 'lags': 1}, {'leads': 0, 'min_lags': 1}]
-    fixed = ['', '# only a comment\n', '```\npass\n```', '`x = 1`', '```\nself._Y[t] = 2.0\n```\nY = Y', 'Y = X', 'Y = 1\nZ = Y[-1] + {a} * <e>[1]']
+    fixed = ['`self._Y[t] = self._Y[t] * 2`\n`self._Y[t] = self._Y[t] * 2`\nY = X', 'Y = X\n```\nself._Y[t] = self._Y[t] + 1\n```\n```\nself._Y[t] = self._Y[t] + 1\n```',
+             '', '# only a comment\n', '```\npass\n```', '`x = 1`', '```\nself._Y[t] = 2.0\n```\nY = Y', 'Y = X', 'Y = 1\nZ = Y[-1] + {a} * <e>[1]']
     for i, script in enumerate(fixed):
         if ctx.mine(i):
             one_program(ctx, script, rng, all_settings)
